@@ -41,6 +41,39 @@ type sortO struct{ id, ord int }
 type sortP struct{ id, ord int }
 type sortPO struct{ id int }
 
+// value-typed participants that are not hashable (a struct value carrying a slice, like a loader embedding
+// loader.RawLoader): legal wherever the container sequences `any` participants
+type sortVO struct {
+	id, ord int
+	doc     []byte
+}
+type sortVP struct {
+	id, ord int
+	doc     []byte
+}
+
+func (s sortVO) Order() int { return s.ord }
+func (s sortVP) Order() int { return s.ord }
+func (s sortVP) Priority()  {}
+
+func sortID(o any) int {
+	switch x := o.(type) {
+	case *sortU:
+		return x.id
+	case *sortO:
+		return x.id
+	case *sortP:
+		return x.id
+	case *sortPO:
+		return x.id
+	case sortVO:
+		return x.id
+	case sortVP:
+		return x.id
+	}
+	return -1
+}
+
 func (s *sortO) Order() int { return s.ord }
 func (s *sortP) Order() int { return s.ord }
 func (s *sortP) Priority()  {}
@@ -75,7 +108,7 @@ func (p c12) direct(c *core.Ctx) bool {
 		n = c.Rng.Intn(6)
 	}
 	var in []any
-	parts := map[any]part{}
+	parts := map[int]part{}
 	classes := map[int]bool{}
 	tie := false
 	seenOrd := map[[2]int]bool{}
@@ -87,7 +120,13 @@ func (p c12) direct(c *core.Ctx) bool {
 		}
 		var o any
 		var pt part
-		switch c.Rng.Intn(4) {
+		switch c.Rng.Intn(5) {
+		case 4:
+			if c.Rng.Intn(2) == 0 {
+				o, pt = sortVP{i, ord, []byte("doc")}, part{i, 0, ord}
+			} else {
+				o, pt = sortVO{i, ord, []byte("doc")}, part{i, 1, ord}
+			}
 		case 0:
 			o, pt = &sortP{i, ord}, part{i, 0, ord}
 		case 1:
@@ -105,7 +144,7 @@ func (p c12) direct(c *core.Ctx) bool {
 		}
 		classes[pt.class] = true
 		in = append(in, o)
-		parts[o] = pt
+		parts[sortID(o)] = pt
 		sig += fmt.Sprintf("%d:%d,", pt.class, pt.ord)
 	}
 	var out []any
@@ -127,9 +166,10 @@ func (p c12) direct(c *core.Ctx) bool {
 		c.Fail("", fmt.Sprintf("sorter returned %d participants for %d", len(out), len(in)), map[string]any{"input": sig})
 		return false
 	}
-	seen := map[any]bool{}
+	seen := map[int]bool{}
 	var seq []part
-	for _, o := range out {
+	for _, ob := range out {
+		o := sortID(ob)
 		pt, ok := parts[o]
 		if !ok || seen[o] {
 			c.Fail("", "sorter output is not a permutation of its input (foreign or repeated participant)", map[string]any{"input": sig})
@@ -156,9 +196,10 @@ func (p c12) direct(c *core.Ctx) bool {
 	if c.Failed() {
 		return false
 	}
-	seen2 := map[any]bool{}
+	seen2 := map[int]bool{}
 	var seq2 []part
-	for _, o := range out2 {
+	for _, ob := range out2 {
+		o := sortID(ob)
 		pt, ok := parts[o]
 		if !ok || seen2[o] {
 			c.Fail("", "second sequencing of the same participant list: a participant is repeated", map[string]any{"input": sig, "first": fmt.Sprint(seq)})
@@ -269,6 +310,13 @@ func (p c12) start(c *core.Ctx) {
 			c.Count("starts_with_a_decorated_post_processor_component", 1)
 		}
 	}
+	// a lazy post-processor that is an ordered runner as well: a participant of the runner sequence too
+	var runningPP *world.RunningPP
+	if c.Rng.Intn(5) == 0 {
+		runningPP = &world.RunningPP{Nm: "running-pp", Ord: ordPool[c.Rng.Intn(len(ordPool))]}
+		extra = append(extra, runningPP)
+		c.Count("starts_with_a_lazy_post_processor_that_is_a_runner", 1)
+	}
 	c.Rng.Shuffle(len(extra), func(i, j int) { extra[i], extra[j] = extra[j], extra[i] })
 	nl := c.Rng.Intn(7)
 	var loaders []configure.Loader
@@ -369,9 +417,15 @@ func (p c12) start(c *core.Ctx) {
 		if e.Kind == "run" {
 			if i, ok := nodeNamed(sc, e.Who); ok {
 				rseq = append(rseq, runnerPart(sc, i))
+			} else if runningPP != nil && e.Who == runningPP.Nm {
+				rseq = append(rseq, part{1000, 1, runningPP.Ord})
 			}
 			seenR[e.Who]++
 		}
+	}
+	if runningPP != nil && seenR[runningPP.Nm] != 1 {
+		c.Fail("", fmt.Sprintf("the lazy post-processor %s, which is an application runner as well, ran %d times", runningPP.Nm, seenR[runningPP.Nm]), failDetail(sc, r, nil))
+		return
 	}
 	for i := range sc.Nodes {
 		if world.Palette[sc.Nodes[i].Type].Runner && seenR[sc.Nodes[i].DisplayName()] != 1 {
